@@ -52,6 +52,7 @@ class Scheduler:
         self.chooser = chooser
         self.trace_files = set(trace_files)
         self.max_steps = max_steps
+        self.block_hooks = []
         self.threads = []
         self.current = None
         self.aborting = False
@@ -171,6 +172,9 @@ class Scheduler:
         if self.aborting:
             raise Abort()
         cur.pred, cur.why = pred, why
+        if self.block_hooks and not pred():
+            for hook in self.block_hooks:
+                hook(cur, why)  # the thread really has to wait (it is not merely descheduled)
         try:
             while not pred():
                 cands = [x for x in self.threads if x is not cur and x.enabled()]
@@ -404,6 +408,8 @@ def make_namespace(sched):
             self.seq = 0
             self.futures = []
             self.pending_at_shutdown = None
+            me = sched.me()
+            self.creator = me.tid if me is not None else None  # which logical thread owns this pool
             ThreadPoolExecutor.instances.append(self)
 
         def submit(self, fn, *args, **kwargs):
